@@ -157,6 +157,29 @@ def run(chk, prog):
                     chk.require(an in ("DualTree", "Any"), "ANNOT-ACCEPT", f"{inst}/dual_tree", "annotation of dual_tree", derived=an, expected="DualTree (the interpreter passes a list of Dual leaves)", where=where)
             full = ("tuple", tuple([r.ret] + [e for e in r.env.get("__effects__", [])]))
             n_role += role_tangent(chk, inst, full, where)
+            # key discipline inside a primitive: a key it consumes (seed=..., first argument of a sampler / logpdf helper) and a key it hands on (to a continuation,
+            # to an inner primitive) must be two DIFFERENT children of one split - never the parent and its child: the next primitive splits the key it is
+            # handed in the same way and would consume the very same child (identical noise in consecutive sites)
+            KEY = P("key")
+            consumed = set()
+            for x in subterms(full):
+                if is_t(x, "call"):
+                    for k_, v_ in x[3]:
+                        if k_ == "seed":
+                            consumed.add(v_)
+                    if (is_mcall(x, "sample") or (is_t(x[1], "attr") and x[1][1] == P("self") and x[1][2] in ("sample_func",))) and x[2]:
+                        consumed.add(x[2][0])
+            handed = set()
+            for x in subterms(full):
+                if is_t(x, "call") and x[1] in (KP, KD) and x[2]:
+                    handed.add(x[2][0])
+                if is_mcall(x, "jvp_estimate") and x[2]:
+                    handed.add(x[2][0])
+            keyish = lambda t: t == KEY or (is_t(t, "proj") and is_call(t[1], "split")) or is_call(t, "fold_in")
+            bad_pairs = [(show(c_)[:40], show(h_)[:40]) for c_ in consumed for h_ in handed if keyish(c_) and keyish(h_) and (c_ == h_ or mentions(c_, h_) or mentions(h_, c_))]
+            if consumed and handed:
+                chk.require(not bad_pairs, "KEY-LINEAR", f"{inst}/keys", "a consumed key and a key handed on are the same key or parent and child", derived=str(bad_pairs[:2]) if bad_pairs else f"{len(consumed)} consumed, {len(handed)} handed on, pairwise unrelated",
+                            expected="key, sub_key = split(key): sub_key consumed, key handed on", where=where)
             if meth == "jvp_estimate":
                 # continuation protocol
                 seen = []
@@ -314,6 +337,13 @@ def run(chk, prog):
         smp = list(dict.fromkeys(smp))
         okn = len(jv_) == 1 and len(smp) == 1 and shape_pred(smp[0]) and dict(smp[0][3]).get("seed") is not None and dict(smp[0][3])["seed"] != P("key") and is_call(smp[0][1][1], "Normal") \
             and dict(smp[0][1][1][3]).get("loc") == C(0.0) and dict(smp[0][1][1][3]).get("scale") == C(1.0)
+        if cn == "MvNormalREPARAM" and body_ is not None:
+            # x = mu + L @ eps with L = cholesky(cov): Cov[x] = L L^T = cov.  (eps @ L has covariance L^T L)
+            P0, P1, P2 = (P(f"$p{i}") for i in range(3))
+            Lc = ("call", ("global", "jax.numpy.linalg.cholesky"), (P2,), ())
+            forms = [("bin", "+", P1, ("bin", "@", Lc, P0)), ("bin", "+", ("bin", "@", Lc, P0), P1),
+                     ("bin", "+", P1, ("call", ("global", "jax.numpy.matmul"), (Lc, P0), ())), ("bin", "+", P1, ("call", ("global", "jax.numpy.dot"), (Lc, P0), ()))]
+            chk.require(body_ in forms, "REPARAM-FORM", "MvNormalREPARAM.before_tail_call/affine", "affine map of the noise", derived=show(body_)[:160], expected="mu + cholesky(cov) @ eps  (closure parameters eps, mu, cov)", where=f"{ci.module.rel}:{ci.methods['before_tail_call'].lineno}")
         chk.require(bool(okn), "REPARAM-NOISE", f"{cn}.before_tail_call", "independent standard-normal noise per coordinate", derived=show(smp[0])[:200] if smp else "no noise draw", expected=exp + ", drawn with the split-off sub key", where=f"{ci.module.rel}:{ci.methods['before_tail_call'].lineno}")
     # Baseline: subtract b inside the continuation, add it back outside
     B = prog.cls("Baseline", PRIM)
